@@ -24,11 +24,33 @@ FIELDS = [
     ("f", "Tuple[int, str]", "(1, 'a')", "('x', 1)", False),
     ("g", "Dict[int, int]", "{1: 1}", "{'abc': 1}", False),
     ("h", "List[Dict[int, List[int]]]", "[{1: [2]}]", "[{1: [2]}, {2: ['q']}]", False),
+    # logical and constrained types, a nested data class (declared in PRELUDE)
+    ("i", "AllOfPS", "5", "-3", False),
+    ("j", "OneOfPS", "'ab'", "'toolong'", False),
+    ("k", "Sub", "{'v': 1}", "{'v': 'x'}", False),
+    ("l", "Optional[PosInt]", "3", "-1", False),
+    ("m", "NotNeg", "2", "-2", True),
 ]
+PRELUDE = """from utype import Schema, Field, Options, Rule
+from typing import List, Dict, Union, Optional, Tuple
+class PosInt(int, Rule):
+    gt = 0
+class Small(int, Rule):
+    lt = 10
+class ShortS(str, Rule):
+    max_length = 3
+class Neg(int, Rule):
+    lt = 0
+AllOfPS = Rule.all_of(PosInt, Small)
+OneOfPS = Rule.one_of(PosInt, ShortS)
+NotNeg = Rule.all_of(int, ~Neg)
+class Sub(Schema):
+    v: int
+"""
 
 
 def class_source(names, addition, dfs):
-    lines = ["from utype import Schema, Field, Options", "from typing import List, Dict, Union, Optional, Tuple", "",
+    lines = [PRELUDE, "",
              "class T(Schema):", "    __options__ = Options(addition=%r, data_first_search=%r)" % (addition, dfs)]
     for n, ann, good, bad, req in FIELDS:
         if n not in names:
@@ -55,7 +77,7 @@ def func_source(names):
             params.append("%s: %s = None" % (n, ann.replace("Union[int, None]", "Optional[int]")))
     # required first
     params.sort(key=lambda p: "=" in p)
-    return ("import utype\nfrom utype import Field, Options\nfrom typing import List, Dict, Union, Optional, Tuple\n\n"
+    return ("import utype\n" + PRELUDE + "\n"
             "def T(%s):\n    return [%s]\n") % (", ".join(params), ", ".join(n for n, *_ in FIELDS if n in names))
 
 
@@ -99,9 +121,10 @@ def main():
         ck.note("model-level counterexample: %s" % mc.invariant_violated)
         ck.count("model_only_counterexamples")
     records, n = [], 0
-    subsets = [s for k in (2, 3, 5) for s in itertools.combinations("abcdefgh", k)]
+    subsets = [s for k in (2, 3, 5) for s in itertools.combinations("abcdefgh", k)] + [s for k in (1, 2, 3) for s in itertools.combinations("aijklm", k)]
     if not thorough:
-        subsets = [("a", "b", "c"), ("a", "d", "e"), ("b", "c", "d"), tuple("abcde"), ("a", "e"), ("a", "f", "g"), ("g", "h"), ("c", "g", "h", "f")]
+        subsets = [("a", "b", "c"), ("a", "d", "e"), ("b", "c", "d"), tuple("abcde"), ("a", "e"), ("a", "f", "g"), ("g", "h"), ("c", "g", "h", "f"),
+                   ("i",), ("a", "i"), ("i", "j", "k"), ("k", "l"), ("a", "m"), ("j", "l", "m"), ("i", "m")]
     for kind in ("class", "class-dfs", "func"):
         for names in subsets:
             for addition in ((False, None) if kind != "func" else (None,)):
